@@ -230,7 +230,10 @@ func TestVerifC12(t *testing.T) {
 		}
 		secrets := []sec{{"right", caller.Secret}, {"wrong", caller.Secret + "x"}, {"absent", ""}, {"other-clients", other}}
 		if caller.Secret == "" {
-			secrets = []sec{{"absent", ""}, {"wrong", "guess"}, {"other-clients", "secret-a"}}
+			// (blank values: a secret-less client has no secret to match - white space is not "the empty secret")
+			secrets = []sec{{"absent", ""}, {"wrong", "guess"}, {"other-clients", "secret-a"}, {"one-space", " "}, {"newline", "\n"}, {"tab-space", "\t "}}
+		} else {
+			secrets = append(secrets, sec{"right-then-space", caller.Secret + " "}, sec{"space-then-right", " " + caller.Secret}, sec{"right-then-newline", caller.Secret + "\n"})
 		}
 		if ex := os.ExpandEnv(caller.Secret); ex != caller.Secret {
 			secrets = append(secrets, sec{"environment-expanded", ex}, sec{"dollar-words-removed", os.Expand(caller.Secret, func(string) string { return "" })})
